@@ -120,7 +120,7 @@ void sim_user(const char *name, uid_t uid, gid_t gid) {
 
 void sim_reset(void) {
   for (int i = 0; i < SIM_MAXINO; i++) { W.ino[i].type = SI_FREE; W.ino[i].cur.n = W.ino[i].dur.n = 0; W.ino[i].nlink = W.ino[i].nopen = 0; }
-  W.ndent = 0; W.nsrc = 0; W.npipe = 0; W.nsink = 0; W.clock = 1000000000; W.ino_base = 100; W.ncalls_total = 0;
+  W.ndent = 0; W.nsrc = 0; W.npipe = 0; W.nsink = 0; W.clock = 1000000000; W.ino_base = 100; W.ino_off = 0; W.ncalls_total = 0;
   for (int i = 0; i < 16; i++) { W.src[i].data.n = 0; W.src[i].pos = 0; W.sink[i].n = 0; }
   for (int i = 0; i < 8; i++) { W.pipe[i].data.n = 0; }
   for (int i = 0; i < SIM_MAXPROC; i++) { P[i].used = 0; P[i].alive = 0; sim_pending_call[i] = 0; }
@@ -146,7 +146,11 @@ int sim_mkfile(const char *path, const void *data, size_t n, uid_t uid, int mode
 }
 int sim_mkfile_ino(const char *fmt, int split, const void *data, size_t n, uid_t uid, int mode) {
   int ino = ino_alloc(SI_FILE, uid, mode); char path[200];
-  if (split) snprintf(path, sizeof path, fmt, ino % split, ino); else snprintf(path, sizeof path, fmt, ino);
+  if (W.ino_off) {   /* same name, built from the reported number: every %d of fmt becomes %llu */
+    char f2[200]; size_t k = 0; for (const char *q = fmt; *q && k + 5 < sizeof f2; q++) if (q[0] == '%' && q[1] == 'd') { memcpy(f2 + k, "%llu", 4); k += 4; q++; } else f2[k++] = *q;
+    f2[k] = 0; unsigned long long r = SIM_RINO(ino);
+    if (split) snprintf(path, sizeof path, f2, r % (unsigned long long)split, r); else snprintf(path, sizeof path, f2, r);
+  } else if (split) snprintf(path, sizeof path, fmt, ino % split, ino); else snprintf(path, sizeof path, fmt, ino);
   dent_add(path, ino);
   hbuf_add(&W.ino[ino].cur, data, n); hbuf_add(&W.ino[ino].dur, data, n);
   return ino;
@@ -207,6 +211,7 @@ __attribute__((noreturn)) static void proc_leave(simproc *p) {
 }
 
 /* every interposed call that can fail or that mutates shared state passes through here */
+void (*sim_gate_hook)(simproc *p, const char *what);   /* called at every gated call after the scheduler let it through */
 static int sim_gate(const char *what, int *err) {
   simproc *p = sim_cur;
   if (sim_threads) {
@@ -220,6 +225,7 @@ static int sim_gate(const char *what, int *err) {
   if (world_crashed) { p->crashed = 1; proc_leave(p); }
   W.ncalls_total++;
   p->ncalls++;
+  if (sim_gate_hook) sim_gate_hook(p, what);      /* opt-in observer (C16: virtual time passing inside a helper's call); unset = no effect */
   if (sim_crash_before && W.ncalls_total == sim_crash_before) {
     world_crashed = 1; p->crashed = 1;
     sim_tr("P%d CRASH before #%d %s\n", p->idx, p->ncalls, what);
@@ -376,7 +382,7 @@ void sim_dump(hbuf *out, const char *prefix, int with_content) {
   for (int i = 0; i < n; i++) {
     siminode *x = &W.ino[tmp[i].ino];
     if (x->type == SI_DIR) continue;
-    int l = snprintf(b, sizeof b, "%s ino=%d size=%zu dirty=%d mtime=%ld atime=%ld", tmp[i].path + strlen(prefix), tmp[i].ino, x->cur.n, x->dirty, x->mtime, x->atime);
+    int l = snprintf(b, sizeof b, "%s ino=%llu size=%zu dirty=%d mtime=%ld atime=%ld", tmp[i].path + strlen(prefix), SIM_RINO(tmp[i].ino), x->cur.n, x->dirty, x->mtime, x->atime);
     hbuf_add(out, b, l);
     if (with_content && x->type == SI_FILE) {
       hbuf_add(out, " cur=", 5);
@@ -438,7 +444,7 @@ int open(const char *path, int flags, ...) {
     if (flags & O_TRUNC) { if (n->cur.n) n->dirty = 2; n->cur.n = 0; n->mtime = W.clock; }
   }
   n->nopen++;
-  sim_tr("P%d #%d %s %s -> %d ino=%d\n", p->idx, p->ncalls, kind, rel(abs), fd, ino);
+  sim_tr("P%d #%d %s %s -> %d ino=%llu\n", p->idx, p->ncalls, kind, rel(abs), fd, SIM_RINO(ino));
   return fd;
 }
 static int fifo_wait_reader(simproc *p) { return W.ino[p->wait_obj].readers == 0; }
@@ -541,7 +547,7 @@ ssize_t write(int fd, const void *buf, size_t len) {
         if (wlen) memcpy(n->cur.p + f->off, buf, wlen);
       }
       f->off += wlen; n->mtime = W.clock;
-      sim_tr("P%d #%d write %d ino=%d off=%ld n=%zu -> %zu data=", p->idx, p->ncalls, fd, f->ino, (long)(f->off - wlen), len, wlen);
+      sim_tr("P%d #%d write %d ino=%llu off=%ld n=%zu -> %zu data=", p->idx, p->ncalls, fd, SIM_RINO(f->ino), (long)(f->off - wlen), len, wlen);
       sim_tr_hex(buf, wlen); sim_tr("\n");
       break; }
     case SFD_FIFO_W: {
@@ -569,7 +575,7 @@ int fsync(int fd) {
   if (faulted) { sim_tr("P%d #%d fsync %d -> -1 e%d FAULT\n", p->idx, p->ncalls, fd, ferr == -1 ? EIO : ferr); FAIL(ferr == -1 ? EIO : ferr); }
   siminode *n = &W.ino[f->ino];
   n->dur.n = 0; hbuf_add(&n->dur, n->cur.p, n->cur.n); n->dirty = 0;
-  sim_tr("P%d #%d fsync %d ino=%d -> 0\n", p->idx, p->ncalls, fd, f->ino);
+  sim_tr("P%d #%d fsync %d ino=%llu -> 0\n", p->idx, p->ncalls, fd, SIM_RINO(f->ino));
   return 0;
 }
 
@@ -584,7 +590,7 @@ int ftruncate(int fd, off_t len) {
   if ((size_t)len < n->cur.n) { n->cur.n = len; n->dirty = 2; }
   while (n->cur.n < (size_t)len) { hbuf_add(&n->cur, "\0", 1); n->dirty = 2; }
   n->mtime = W.clock;
-  sim_tr("P%d #%d ftruncate %d ino=%d len=%ld -> 0\n", p->idx, p->ncalls, fd, f->ino, (long)len);
+  sim_tr("P%d #%d ftruncate %d ino=%llu len=%ld -> 0\n", p->idx, p->ncalls, fd, SIM_RINO(f->ino), (long)len);
   return 0;
 }
 
@@ -644,7 +650,7 @@ int rename(const char *a, const char *b) {
 
 static void fill_stat(struct stat *st, int ino) {
   siminode *n = &W.ino[ino]; memset(st, 0, sizeof *st);
-  st->st_ino = ino; st->st_nlink = n->nlink; st->st_uid = n->uid; st->st_gid = n->gid; st->st_size = n->cur.n;
+  st->st_ino = SIM_RINO(ino); st->st_nlink = n->nlink; st->st_uid = n->uid; st->st_gid = n->gid; st->st_size = n->cur.n;
   st->st_mode = n->mode | (n->type == SI_DIR ? S_IFDIR : n->type == SI_FIFO ? S_IFIFO : S_IFREG);
   st->st_atime = n->atime; st->st_mtime = n->mtime; st->st_ctime = n->mtime; st->st_dev = 1;
 }
@@ -656,7 +662,7 @@ static int do_stat(const char *a, struct stat *st, const char *nm) {
   int ino = sim_lookup(pa);
   if (ino < 0) { sim_tr("P%d #%d %s %s -> -1 e%d\n", p->idx, p->ncalls, nm, rel(pa), ENOENT); FAIL(ENOENT); }
   fill_stat(st, ino);
-  sim_tr("P%d #%d %s %s -> 0 ino=%d\n", p->idx, p->ncalls, nm, rel(pa), ino);
+  sim_tr("P%d #%d %s %s -> 0 ino=%llu\n", p->idx, p->ncalls, nm, rel(pa), SIM_RINO(ino));
   return 0;
 }
 int stat(const char *a, struct stat *st) {
@@ -675,7 +681,7 @@ int fstat(int fd, struct stat *st) {
   if (faulted) { sim_tr("P%d #%d fstat %d -> -1 e%d FAULT\n", p->idx, p->ncalls, fd, ferr == -1 ? EIO : ferr); FAIL(ferr == -1 ? EIO : ferr); }
   if (f->kind == SFD_FILE || f->kind == SFD_FIFO_R || f->kind == SFD_FIFO_W) fill_stat(st, f->ino);
   else { memset(st, 0, sizeof *st); st->st_mode = S_IFIFO | 0600; }
-  sim_tr("P%d #%d fstat %d -> 0 ino=%d\n", p->idx, p->ncalls, fd, (int)st->st_ino);
+  sim_tr("P%d #%d fstat %d -> 0 ino=%llu\n", p->idx, p->ncalls, fd, (unsigned long long)st->st_ino);
   return 0;
 }
 
@@ -751,13 +757,13 @@ int flock(int fd, int op) {
   GATE("flock");
   if (faulted) { sim_tr("P%d #%d flock %d -> -1 e%d FAULT\n", p->idx, p->ncalls, fd, ferr == -1 ? EIO : ferr); FAIL(ferr == -1 ? EIO : ferr); }
   siminode *n = &W.ino[f->ino];
-  if (op & LOCK_UN) { if (n->lockproc == p->idx) n->lockproc = -1; sim_tr("P%d #%d flock_un ino=%d -> 0\n", p->idx, p->ncalls, f->ino); return 0; }
+  if (op & LOCK_UN) { if (n->lockproc == p->idx) n->lockproc = -1; sim_tr("P%d #%d flock_un ino=%llu -> 0\n", p->idx, p->ncalls, SIM_RINO(f->ino)); return 0; }
   if (n->lockproc != -1 && n->lockproc != p->idx) {
-    if (op & LOCK_NB) { sim_tr("P%d #%d flock_nb ino=%d -> -1 e%d\n", p->idx, p->ncalls, f->ino, EWOULDBLOCK); FAIL(EWOULDBLOCK); }
+    if (op & LOCK_NB) { sim_tr("P%d #%d flock_nb ino=%llu -> -1 e%d\n", p->idx, p->ncalls, SIM_RINO(f->ino), EWOULDBLOCK); FAIL(EWOULDBLOCK); }
     p->wait_obj = f->ino; sim_block(flock_wait, "flock");
   }
   n->lockproc = p->idx;
-  sim_tr("P%d #%d flock ino=%d -> 0\n", p->idx, p->ncalls, f->ino);
+  sim_tr("P%d #%d flock ino=%llu -> 0\n", p->idx, p->ncalls, SIM_RINO(f->ino));
   return 0;
 }
 
@@ -861,13 +867,24 @@ static int default_select(simproc *p, int nfds, fd_set *r, fd_set *w, struct tim
   return n;
 }
 int (*sim_select_hook)(simproc *p, int nfds, fd_set *r, fd_set *w, struct timeval *tv) = default_select;
+int sim_select_writeback = 1;       /* 0 = treat *timeout as input only (POSIX allows either) */
 int select(int nfds, fd_set *r, fd_set *w, fd_set *e, struct timeval *tv) {
   if (!sim_on) { static int (*f)(int, fd_set *, fd_set *, fd_set *, struct timeval *); if (!f) f = real("select"); return f(nfds, r, w, e, tv); }
   simproc *p = sim_cur;
   GATE("select");
   if (faulted) { sim_tr("P%d #%d select -> -1 e%d FAULT\n", p->idx, p->ncalls, ferr == -1 ? EINTR : ferr); FAIL(ferr == -1 ? EINTR : ferr); }
   long t = tv ? (long)tv->tv_sec : -1;
+  long us0 = tv ? (long)tv->tv_usec : 0, c0 = W.clock;
   int n = sim_select_hook(p, nfds, r, w, tv);
+  if (tv && sim_select_writeback) {
+    /* Linux: select() writes the time NOT slept back into *timeout.  Ran into the timeout: {0,0}.  Woken early (descriptor or
+     * signal): what is left of the seconds, less a sub-second amount that the call itself took.  Invisible to a caller that sets
+     * both fields before every call (every program run under qsim so far does). */
+    long left = t - (W.clock - c0); if (left < 0) left = 0;
+    if (n == 0 || (left == 0 && us0 == 0)) { tv->tv_sec = 0; tv->tv_usec = 0; }
+    else if (us0 == 0) { tv->tv_sec = left - 1; tv->tv_usec = 999715; }
+    else { tv->tv_sec = left; tv->tv_usec = us0 > 285 ? us0 - 285 : 0; }
+  }
   if (n >= 0) sim_tr("P%d #%d select timeout=%ld -> %d clock=%ld\n", p->idx, p->ncalls, t, n, W.clock);
   else sim_tr("P%d #%d select timeout=%ld -> -1 e%d\n", p->idx, p->ncalls, t, errno);
   return n;
